@@ -211,7 +211,14 @@ class Interp:
                 import itertools as _it
                 outs = []
                 saved = dict(self.opts.get('assume') or {})
-                for pols in _it.product((True, False), repeat=len(split)):
+
+                def _cases(t):
+                    if isinstance(t, tuple) and t[0] == 'order':
+                        return ('lt', 'eq', 'gt')
+                    if isinstance(t, tuple) and t[0] == 'magnitude':
+                        return ('big', 'tiny')
+                    return (True, False)
+                for pols in _it.product(*[_cases(t) for t in split]):
                     a = dict(saved)
                     for t, p in zip(split, pols):
                         a[(fn.qualname, t)] = p
@@ -559,8 +566,31 @@ class Interp:
         table = self.opts.get('assume')
         if not table:
             return None
+        where = self.where()
         src = model.norm_src(self.mod(), test)
-        return table.get((self.where(), src))
+        if (where, src) in table:
+            return table[(where, src)]
+        for (w, key), val in table.items():
+            if w != where or not isinstance(key, tuple):
+                continue
+            if key[0] == 'order':
+                # comparison of two integer names under an assumed ordering
+                from .rules_formula import _eval_cmp
+                a, b = key[1], key[2]
+                env = {'lt': {a: 1, b: 2}, 'eq': {a: 2, b: 2},
+                       'gt': {a: 2, b: 1}}[val]
+                try:
+                    r = _eval_cmp(test, env)
+                except Exception:
+                    r = None
+                if r is not None:
+                    return bool(r)
+            elif key[0] == 'magnitude':
+                # abs(x) compared with a positive literal: x 'big' or 'tiny'
+                r = _magnitude_test(test, key[1], val)
+                if r is not None:
+                    return r
+        return None
 
     def add_fact(self, env, test, pol):
         mod = self.mod()
@@ -1613,6 +1643,33 @@ def _flat_labels(label):
 def env_key(env):
     return tuple(sorted((n, v.key()) for n, v in env.items()
                         if not n.startswith('$') and isinstance(v, AV)))
+
+
+def _magnitude_test(test, name, case):
+    """abs(name) <op> positive literal, decided for |name| huge / zero."""
+    if not (isinstance(test, ast.Compare) and len(test.ops) == 1):
+        return None
+    l, r = test.left, test.comparators[0]
+    op = type(test.ops[0])
+
+    def is_abs(n):
+        return isinstance(n, ast.Call) and len(n.args) == 1 and \
+            isinstance(n.args[0], ast.Name) and n.args[0].id == name and \
+            (getattr(n.func, 'id', None) == 'abs' or
+             getattr(n.func, 'attr', None) in ('abs', 'absolute', 'fabs'))
+
+    def pos_lit(n):
+        return isinstance(n, ast.Constant) and \
+            isinstance(n.value, (int, float)) and n.value > 0
+    if is_abs(l) and pos_lit(r):
+        big = {ast.Gt: True, ast.GtE: True, ast.Lt: False, ast.LtE: False}
+    elif is_abs(r) and pos_lit(l):
+        big = {ast.Gt: False, ast.GtE: False, ast.Lt: True, ast.LtE: True}
+    else:
+        return None
+    if op not in big:
+        return None
+    return big[op] if case == 'big' else not big[op]
 
 
 def tag_owned(v, attr, seen=None):
